@@ -13,20 +13,34 @@ import (
 
 func init() {
 	register(&Property{
-		ID:        "C41",
-		Patterns:  []string{"./sql/mysql_db"},
-		Technique: "writer/reader table extraction over go/types (flatbuffer Add* calls vs accessor selections) + intra-procedural may-depend closure pairing struct fields with serialized fields",
+		ID:       "C41",
+		Patterns: []string{"./sql/mysql_db"},
+		Technique: "writer/reader table extraction over go/types (flatbuffer Add* calls vs accessor selections) + intra-procedural may-depend closure pairing struct fields with serialized fields; " +
+			"for the privilege-set tree: collection fields read from the struct declarations, transitive field-use closure per receiver/parameter, and finite evaluation (one boolean per collection) of " +
+			"emptiness predicates, child filters and guarded deletes; access-path summaries of accessor methods; key-normaliser agreement per map field",
 		Explanation: "Accounts, roles and grants are persisted by MySQLDb.Persist (serialize* functions filling flatbuffer tables of package serial) and " +
 			"reloaded by MySQLDb.LoadData (Load*/load* functions building the in-memory structs). Decided: (F1) for every field F of every flatbuffer table T of " +
 			"package serial, F is written on the Persist side iff its accessor is used on the LoadData side; (F2) the pairing between in-memory struct fields " +
 			"and serialized fields is the same in both directions: the writer stores S.f into T.F iff the loader's composite literal of S fills f from T.F " +
 			"(so a field that is stored but not restored, restored from another field, or two swapped fields are reported). " +
-			"A violated instance means some part of the access-control state is different after a reload.",
-		NotCovered: "value encodings inside one field (timestamps as Unix seconds, JSON attributes, privilege ids as int32), the legacy JSON loader, " +
+			"Container coverage of the privilege-set tree (the struct types reachable from PrivilegeSet through its map/slice fields; a level's collections are its map/slice fields): " +
+			"(P1a) every emptiness predicate (the nullary bool method all tree types define: HasPrivileges) is true whenever any collection of its level holds something; " +
+			"(P1b) every filter applied to a child while children are enumerated (getDatabases/GetTables/..., the mysql.db/tables_priv/procs_priv row producers, the arms of the predicates) keeps " +
+			"each child that holds something in a collection the guarded code consumes - the whole child when it is passed on; (P1c) a child entry is deleted from its parent's map " +
+			"only under a test that covers all of the child's collections; (P2a) every collection of every level is paired with a serialized field by the writer and by the loader; " +
+			"(P2b) union, equality and copy methods use every collection of the receiver and of the parameter; (P2c) the clear methods empty every collection or their callers drop the entry; " +
+			"(P3) AddX and RemoveX of one level operate on the same leaf collection (access paths through the accessor methods); " +
+			"(P4) all functions that index or delete in one map collection derive the key through the normaliser the storing functions use (strings.ToLower). " +
+			"A violated instance means some part of the access-control state is different after a reload, or a grant/revoke is not reflected exactly.",
+		NotCovered: "value encodings inside one field (timestamps as Unix seconds, JSON attributes, privilege ids as int32), element order inside parallel flatbuffer vectors, the legacy JSON loader, " +
 			"fields that are deliberately not persisted (listed as info: IsSuperUser is persisted through the separate SuperUser vector, IsEphemeral users are never persisted), " +
-			"and OverwriteUsersAndGrantData (reported as info only: it documents that it restores users and grants only)",
+			"and OverwriteUsersAndGrantData (reported as info only: it documents that it restores users and grants only). For the tree clauses: that a predicate body outside the if/range/return shape " +
+			"computes a disjunction (only its read coverage is decided then), filters whose condition mixes an emptiness test with other terms or sits in an else-chain (info), the precision of " +
+			"Equals beyond 'looks at every collection', the keys under which the loader re-inserts children (shown harmless: every copy re-keys through getUseable*), " +
+			"which privilege ids are legal at which level, and the GRANT/REVOKE plan nodes that call these methods (C39)",
 		Run: func(c *Ctx) {
-			runC41(c, "sql/mysql_db", "sql/mysql_db/serial", "MySQLDb.Persist", "MySQLDb.LoadData", 45, 41)
+			pairs := runC41(c, "sql/mysql_db", "sql/mysql_db/serial", "MySQLDb.Persist", "MySQLDb.LoadData", 45, 41)
+			runC41Tree(c, "sql/mysql_db", "PrivilegeSet", pairs, c41tFloors{p1a: 10, p1b: 11, p1c: 1, p2a: 10, p2b: 23, p2c: 4, p3: 6, p4: 14})
 		},
 		Fixture: func(c *Ctx, fx *Prog) {
 			expectFixture(c, fx, "c41: unread field, unwritten field and swapped fields must be reported",
@@ -40,8 +54,23 @@ func init() {
 				func(fc *Ctx) {
 					runC41(fc, "testdata/c41/db", "testdata/c41/db/serial", "Store.Persist", "Store.LoadData", 0, 0)
 				})
+			expectFixture(c, fx, "c41 tree: a predicate, a child filter, the writer+loader, a union, a copy, a reset, a guarded delete and a remove that each forget a collection, and a delete with an un-normalised key, must be reported",
+				[]string{
+					"C41-P1a:Set.NonEmpty:global", "C41-P1a:Set.NonEmpty:named", "C41-P1a:DbSet.NonEmpty:procs",
+					"C41-P1b:Set.NonEmpty:DbSet", "C41-P1b:Set.list:DbSet",
+					"C41-P1c:Set.RemoveDb:delete DbSet",
+					"C41-P2a:DbSet.procs", "C41-P2a:ProcSet.privs",
+					"C41-P2b:Set.Clone:named", "C41-P2b:DbSet.union:procs",
+					"C41-P2c:DbSet.clear",
+					"C41-P3:Set.AddTab/RemoveTab",
+					"C41-P4:Set.RemoveProc:DbSet.procs",
+				},
+				func(fc *Ctx) {
+					pairs := runC41(fc, "testdata/c41/tree", "testdata/c41/tree/serial", "Store.Persist", "Store.LoadData", 0, 0)
+					runC41Tree(fc, "testdata/c41/tree", "Set", pairs, c41tFloors{})
+				})
 		},
-		FixturePkgs: []string{"./testdata/c41/db", "./testdata/c41/db/serial"},
+		FixturePkgs: []string{"./testdata/c41/db", "./testdata/c41/db/serial", "./testdata/c41/tree", "./testdata/c41/tree/serial"},
 	})
 }
 
@@ -114,25 +143,28 @@ func c41Tables(c *Ctx, sp *packages.Package) []*c41Table {
 
 type c41Pair struct{ s, t string } // "Struct.field", "Table.Field"
 
-func runC41(c *Ctx, dbRel, serialRel, persistRoot, loadRoot string, floorF1, floorF2 int) {
+// c41Pairs is the writer-side and the loader-side relation {(Struct.field, Table.Field)} computed by C41-F2.
+type c41Pairs struct{ W, L map[c41Pair]token.Pos }
+
+func runC41(c *Ctx, dbRel, serialRel, persistRoot, loadRoot string, floorF1, floorF2 int) *c41Pairs {
 	c.Rule("C41-F1", "for every field F of every flatbuffer table T of package serial: TAddF is called by a function reachable from "+persistRoot+
 		" iff the accessor (*T).F (or FBytes) is used by a function reachable from "+loadRoot, floorF1)
 	c.Rule("C41-F2", "the writer stores struct field S.f into serialized field T.F (argument of TAddF may depend on S.f) iff the loader's composite literal of S fills f from an expression that may depend on accessor (*T).F", floorF2)
 	db, sp := c.P.Pkg(dbRel), c.P.Pkg(serialRel)
 	if db == nil || sp == nil {
 		c.Undecided("C41-F1", "packages", 0, "anchor packages not loaded: "+dbRel+", "+serialRel)
-		return
+		return nil
 	}
 	info := db.TypesInfo
 	pRoot, lRoot := LookupFunc(db, persistRoot), LookupFunc(db, loadRoot)
 	if pRoot == nil || lRoot == nil || c.P.Decl(pRoot) == nil || c.P.Decl(lRoot) == nil {
 		c.Undecided("C41-F1", "roots", 0, "anchor functions not found: "+persistRoot+", "+loadRoot)
-		return
+		return nil
 	}
 	tables := c41Tables(c, sp)
 	if len(tables) == 0 {
 		c.Undecided("C41-F1", "tables", 0, "no flatbuffer tables (type T with TStart/TEnd) found in "+serialRel)
-		return
+		return nil
 	}
 	addOf := map[*types.Func][2]string{} // TAddF -> (T, F)
 	accOf := map[*types.Func][2]string{} // any accessor-like method of T -> (T, F), exact accessors only
@@ -502,6 +534,7 @@ func runC41(c *Ctx, dbRel, serialRel, persistRoot, loadRoot string, floorF1, flo
 			}
 		}
 	}
+	return &c41Pairs{W: pairsW, L: pairsL}
 }
 
 func originOf(fn *types.Func) *types.Func {
